@@ -389,6 +389,7 @@ type lockFinding struct {
 // pkgs. held(fn) may pre-seed the entry state (e.g. methods documented as
 // called-with-lock are instead verified through their callers).
 func checkLockRows(c *Ctx, r *Report, rule string, pkgs []string, rows []LockRow) {
+	rows = normLockRows(c, pkgs, rows)
 	ctor := map[string]bool{}
 	for _, row := range rows {
 		for _, n := range row.Ctors {
